@@ -39,6 +39,7 @@ type vconn struct {
 	stamp        bool
 	yieldAfterWrite bool // a scheduling point after the packet was accepted and before Write returns
 	closeErr        error // returned by the first Close (e.g. a TLS / websocket teardown error)
+	failWrites      bool  // the write side is broken (every Write fails) while the read side still delivers
 }
 
 func newVconn(name string) *vconn {
@@ -98,6 +99,11 @@ func (c *vconn) Write(p []byte) (int, error) {
 		c.writes = append(c.writes, vconnWrite{append([]byte{}, p...), true})
 		verifUnlock()
 		return 0, errVconnClosed
+	}
+	if c.failWrites {
+		c.writes = append(c.writes, vconnWrite{append([]byte{}, p...), true})
+		verifUnlock()
+		return 0, errVconnWrite
 	}
 	if c.onWrite != nil {
 		if err := c.onWrite(c, p); err != nil {
@@ -171,6 +177,13 @@ func (c *vconn) peerClose() {
 	c.eof = true
 	verifUnlock()
 	c.signal()
+}
+
+// breakWrites: from now on every Write fails; reads are unaffected.
+func (c *vconn) breakWrites() {
+	verifLock()
+	c.failWrites = true
+	verifUnlock()
 }
 
 func (c *vconn) isClosed() bool {
